@@ -54,6 +54,10 @@ type caseSpec struct {
 	GenCh   int64
 	Inject  string // "", "toc", "landmark"
 	DupTail bool   // the order-sensitive tail (target, hardlink, duplicate of an early entry) was appended
+	// Reuse > 0: this many blobs (different inputs) are produced one after the other (gzip/zstd in
+	// the race stage: the first two concurrently) through ONE Compression value.
+	Reuse    int
+	ReuseIdx int // which of them this spec describes (0 = the case itself)
 }
 
 func (c *caseSpec) String() string {
@@ -66,6 +70,9 @@ func (c *caseSpec) String() string {
 	}
 	if c.DupTail {
 		s += " duptail"
+	}
+	if c.Reuse > 0 {
+		s += fmt.Sprintf(" sharedCompression(blob %d of %d)", c.ReuseIdx+1, c.Reuse)
 	}
 	return s
 }
@@ -120,6 +127,9 @@ func (c *caseSpec) keyClass() string {
 		k += ":minchunk"
 	} else if c.Mode == "build" && c.Opts.Workers > 1 {
 		k += ":parallel"
+	}
+	if c.Reuse > 0 && c.ReuseIdx > 0 {
+		k += ":reused-compression"
 	}
 	return k
 }
@@ -230,6 +240,9 @@ func genCase(r *vf.Run, i int) (*caseSpec, []gen.Entry) {
 		}
 		c.Opts.AllowMissing = true
 	}
+	if rr := rng.Derive(6); rr.Chance(1, 4) {
+		c.Reuse = rr.Range(2, 3)
+	}
 	return c, ents
 }
 
@@ -259,7 +272,7 @@ func body(r *vf.Run) {
 	var raceCases []int
 	for i := 0; i < n; i++ {
 		c, _ := genCase(r, i)
-		if c.Mode == "build" && c.Opts.Workers > 1 && c.Opts.MinChunk == 0 {
+		if (c.Mode == "build" && c.Opts.Workers > 1 && c.Opts.MinChunk == 0) || (c.Reuse > 0 && c.Opts.Scheme != "externaltoc") {
 			raceCases = append(raceCases, i)
 		}
 	}
@@ -462,9 +475,55 @@ func dedupe(in []inEntry) []inEntry {
 	return res
 }
 
+// job is one blob to produce and judge. A case is one job, or — with compression object
+// reuse — 2-3 jobs over different inputs that share ONE Compression value.
+type job struct {
+	c        *caseSpec
+	ents     []gen.Entry
+	rng      *prng.R
+	replay   map[string]any
+	in       []inEntry
+	plain    []gen.Entry
+	input    []byte
+	inputTar []byte
+	// result of driving
+	b        *built
+	err      error
+	panicked bool
+	pv       any
+	stack    string
+}
+
+func (j *job) viol(r *vf.Run, clause, what string) {
+	r.Violate(clause+":"+j.c.keyClass(), what+"  ["+j.c.String()+"]", j.replay)
+}
+
+// subCase derives the k-th further input of a reuse case: other entries, other mode and
+// serialisation, the SAME scheme/level (the compression object is shared).
+func subCase(r *vf.Run, c *caseSpec, k int) (*caseSpec, []gen.Entry) {
+	rng := r.RNG(uint64(c.Idx), 50+uint64(k))
+	sc := *c
+	sc.ReuseIdx = k
+	sc.Inject, sc.DupTail = "", false
+	sc.Opts.Prioritized, sc.Opts.AllowMissing = nil, false
+	sc.Mode = rng.PickS("build", "build", "writer", "lossless")
+	sc.Input = rng.PickS("plain", "gzip")
+	sc.Opts.Workers = rng.Range(1, 8)
+	if rng.Chance(1, 3) {
+		sc.Opts.MinChunk = 0
+	}
+	o := gen.DefaultOpts(c.GenCh)
+	o.MaxEntries = rng.Pick(3, 8, 16)
+	ents := gen.RandomTar(rng.Derive(1), o)
+	if rng.Chance(1, 3) {
+		ents = appendDupTail(rng.Derive(4), ents)
+		sc.DupTail = true
+	}
+	return &sc, ents
+}
+
 func runCase(r *vf.Run, idx int) {
 	c, ents := genCase(r, idx)
-	rng := r.RNG(uint64(idx), 9)
 	t0 := time.Now()
 	var tBuilt time.Time
 	defer func() {
@@ -478,12 +537,58 @@ func runCase(r *vf.Run, idx int) {
 		stage = "race"
 	}
 	r.Count("cases_"+stage, 1)
-	replay := map[string]any{"case": idx, "desc": c.String(), "entries": gen.Describe(ents), "how": fmt.Sprintf("VERIF_SEED=%d /verif/run.sh C03 %s (case index %d)", r.Seed, r.Tier, idx)}
-	viol := func(clause, what string) {
-		r.Violate(clause+":"+c.keyClass(), what+"  ["+c.String()+"]", replay)
-	}
 
-	in := toIn(ents)
+	jobs := []*job{{c: c, ents: ents, rng: r.RNG(uint64(idx), 9)}}
+	var sh *sharedComp
+	if c.Reuse > 0 {
+		var err error
+		if sh, err = newShared(c.Opts); err != nil {
+			r.Inconclusive("cannot create the shared compression object: " + err.Error())
+			return
+		}
+		for k := 1; k < c.Reuse; k++ {
+			sc, se := subCase(r, c, k)
+			jobs = append(jobs, &job{c: sc, ents: se, rng: r.RNG(uint64(idx), 9, uint64(k))})
+		}
+		r.Count("reuse_cases_"+c.Opts.Scheme, 1)
+	}
+	var ready []*job
+	for _, j := range jobs {
+		if j.prepare(r) {
+			ready = append(ready, j)
+		}
+	}
+	// gzip and zstd:chunked compressors are stateless / pool based, i.e. meant to be shared by
+	// concurrent builds; the external-TOC object keeps the TOC of its LAST blob for WriteTOCTo,
+	// so it can only be reused one blob after the other.
+	concurrent := r.RaceBuild && sh != nil && c.Opts.Scheme != "externaltoc" && len(ready) >= 2
+	if concurrent {
+		var wg sync.WaitGroup
+		for _, j := range ready[:2] {
+			wg.Add(1)
+			go func(j *job) { defer wg.Done(); j.drive(r, sh) }(j)
+		}
+		wg.Wait()
+		for _, j := range ready[2:] {
+			j.drive(r, sh)
+		}
+		r.Count("reuse_concurrent_pairs", 1)
+	} else {
+		for _, j := range ready {
+			j.drive(r, sh)
+		}
+	}
+	tBuilt = time.Now()
+	for _, j := range ready {
+		j.finish(r, stage)
+	}
+}
+
+// prepare builds the input model and serialises the input. false = nothing to drive.
+func (j *job) prepare(r *vf.Run) bool {
+	c, rng := j.c, j.rng
+	j.replay = map[string]any{"case": c.Idx, "desc": c.String(), "entries": gen.Describe(j.ents), "how": fmt.Sprintf("VERIF_SEED=%d /verif/run.sh C03 %s (case index %d)", r.Seed, r.Tier, c.Idx)}
+	in := toIn(j.ents)
 	switch c.Inject {
 	case "toc":
 		e := gen.Entry{Name: rng.PickS("stargz.index.json", "./stargz.index.json"), Type: tar.TypeReg, Mode: 0o644, Size: 33, ContentID: 0xabcdef01, ModTime: 1600000000}
@@ -513,10 +618,10 @@ func runCase(r *vf.Run, idx int) {
 	case "zstd":
 		input = zstdBytes(tarBytes)
 	default: // already eStargz: the output of a previous Build fed back in
-		pre, err := runBuild(tarBytes, c.PreOpts)
+		pre, err := runBuild(tarBytes, c.PreOpts, nil)
 		if err != nil {
-			viol("build-error:pre-build", "estargz.Build failed on a valid tar: "+err.Error())
-			return
+			j.viol(r, "build-error:pre-build", "estargz.Build failed on a valid tar: "+err.Error())
+			return false
 		}
 		input = pre.Blob
 		// the first build is a Build like any other: its output must already unpack like its input
@@ -527,9 +632,9 @@ func runCase(r *vf.Run, idx int) {
 				checkUnpack(&pv, in, pents)
 				if len(pv.fs) > 0 {
 					for _, f := range pv.fs {
-						r.Violate(f.Clause+":build:"+c.PreOpts.Scheme+":pre-build", f.What+"  ["+c.String()+"]", replay)
+						r.Violate(f.Clause+":build:"+c.PreOpts.Scheme+":pre-build", f.What+"  ["+c.String()+"]", j.replay)
 					}
-					return
+					return false
 				}
 			}
 		}
@@ -549,8 +654,8 @@ func runCase(r *vf.Run, idx int) {
 		if c.Mode == "lossless" {
 			raw, err := specread.DecompressAll(input, c.PreOpts.Scheme == "zstdchunked")
 			if err != nil {
-				viol("stream-invalid:pre-build", "the blob of the first build cannot be decompressed: "+err.Error())
-				return
+				j.viol(r, "stream-invalid:pre-build", "the blob of the first build cannot be decompressed: "+err.Error())
+				return false
 			}
 			inputTar = raw
 		}
@@ -558,46 +663,54 @@ func runCase(r *vf.Run, idx int) {
 	r.Count("input_"+c.Input, 1)
 	r.Count("mode_"+c.Mode, 1)
 	r.Count("scheme_"+c.Opts.Scheme, 1)
+	if c.Mode == "build" {
+		r.Count(fmt.Sprintf("build_workers_%d", c.Opts.Workers), 1)
+	}
+	j.in, j.plain, j.input, j.inputTar = in, plain, input, inputTar
+	return true
+}
 
-	// ---- drive -----------------------------------------------------------------------
-	var b *built
-	var err error
-	panicked, pv, stack := vf.Recover(func() {
+// drive produces the blob (no vf calls here: two drives may run concurrently in the race stage).
+func (j *job) drive(r *vf.Run, sh *sharedComp) {
+	c, rng := j.c, j.rng
+	j.panicked, j.pv, j.stack = vf.Recover(func() {
 		switch c.Mode {
 		case "build":
-			r.Count(fmt.Sprintf("build_workers_%d", c.Opts.Workers), 1)
-			b, err = runBuild(input, c.Opts)
+			j.b, j.err = runBuild(j.input, c.Opts, sh)
 		case "writer":
-			b, err = runWriter([][]byte{input}, c.Opts, false)
+			j.b, j.err = runWriter([][]byte{j.input}, c.Opts, false, sh)
 		case "writer2":
 			// two AppendTar calls on one Writer: the entry list is split in two tars
-			cut := rng.Intn(len(plain) + 1)
-			t1, t2 := gen.TarBytes(plain[:cut]), gen.TarBytes(plain[cut:])
+			cut := rng.Intn(len(j.plain) + 1)
+			t1, t2 := gen.TarBytes(j.plain[:cut]), gen.TarBytes(j.plain[cut:])
 			if c.Input != "plain" {
 				t1, t2 = gzipBytes(t1, 6), gzipBytes(t2, 1)
 			}
-			b, err = runWriter([][]byte{t1, t2}, c.Opts, false)
+			j.b, j.err = runWriter([][]byte{t1, t2}, c.Opts, false, sh)
 		case "lossless":
-			b, err = runWriter([][]byte{input}, c.Opts, true)
+			j.b, j.err = runWriter([][]byte{j.input}, c.Opts, true, sh)
 		}
 	})
-	tBuilt = time.Now()
-	if panicked {
+}
+
+func (j *job) finish(r *vf.Run, stage string) {
+	c, b := j.c, j.b
+	if j.panicked {
 		site := "unknown"
-		if m := frameRe.FindStringSubmatch(stack); m != nil {
+		if m := frameRe.FindStringSubmatch(j.stack); m != nil {
 			site = m[1]
 		}
-		r.Violate("panic@"+site+":"+c.keyClass(), fmt.Sprintf("panic %v while building [%s]", pv, c.String()), replay)
+		r.Violate("panic@"+site+":"+c.keyClass(), fmt.Sprintf("panic %v while building [%s]", j.pv, c.String()), j.replay)
 		return
 	}
-	if err != nil {
+	if j.err != nil {
 		hasTOCEntry := c.Input == "esgz-gzip" || (c.Inject == "toc" && !strings.HasPrefix(c.Input, "esgz-"))
-		if c.Mode == "lossless" && hasTOCEntry && strings.Contains(err.Error(), "existing TOC JSON is not allowed") {
+		if c.Mode == "lossless" && hasTOCEntry && strings.Contains(j.err.Error(), "existing TOC JSON is not allowed") {
 			// documented refusal (AppendTarLossLess doc comment): not a blob, nothing to judge
 			r.Count("lossless_refused_existing_toc", 1)
 			return
 		}
-		viol("build-error", "the builder failed on a valid input: "+err.Error())
+		j.viol(r, "build-error", "the builder failed on a valid input: "+j.err.Error())
 		return
 	}
 	if c.Mode == "lossless" && (c.Input == "esgz-gzip" || (c.Inject == "toc" && !strings.HasPrefix(c.Input, "esgz-"))) {
@@ -605,9 +718,13 @@ func runCase(r *vf.Run, idx int) {
 	}
 
 	// ---- judge -----------------------------------------------------------------------
-	v, st := checkCase(c, in, inputTar, b)
+	v, st := checkCase(c, j.in, j.inputTar, b)
 	for _, f := range v.fs {
-		viol(f.Clause, f.What)
+		j.viol(r, f.Clause, f.What)
+	}
+	r.Count("blobs_judged", 1)
+	if c.Reuse > 0 {
+		r.Count(fmt.Sprintf("blobs_from_a_reused_compression_object_#%d", c.ReuseIdx), 1)
 	}
 	r.Count("tar_entries_compared", st.TarEntries)
 	r.Count("toc_entries_seen", st.TOCEntries)
@@ -634,8 +751,8 @@ func runCase(r *vf.Run, idx int) {
 		r.NonTrivial(c.String())
 		r.Count("nontrivial_"+stage, 1)
 	}
-	if idx < 4 && !r.RaceBuild {
-		r.Sample(map[string]any{"case": c.String(), "entries": gen.Describe(ents), "blob_bytes": st.BlobBytes, "uncompressed": st.UncompressedSize,
+	if c.Idx < 4 && !r.RaceBuild {
+		r.Sample(map[string]any{"case": c.String(), "entries": gen.Describe(j.ents), "blob_bytes": st.BlobBytes, "uncompressed": st.UncompressedSize,
 			"toc_entries": st.TOCEntries, "data_entries": st.DataEntries, "streams": st.Streams, "multi_chunk_files": st.MultiChunkFiles, "shared_stream_entries": st.SharedStreamEntries})
 	}
 }
